@@ -266,6 +266,7 @@ def setIfEquals (name : Ref) (old : Option (Option Val)) (new : Val) (c : Cache)
     let real := match fr with
       | some (r, _) => r
       | none => name
+    getPacked c fun _ c =>                           -- `_check_packed_conflict(realname)`: names are flat here
     getPacked c fun stale c =>                       -- `packed_refs = self.get_packed_refs()` (outside the lock)
     sOpenX real fun ok =>
       if !ok then k (.exc .locked) c else
@@ -292,6 +293,7 @@ def addIfNew (vr : Variant) (name : Ref) (v : Val) (c : Cache) (k : Outcome → 
     | none => k (.exc .symloop) c
     | some (_, some _) => k (.bool false) c
     | some (real, none) =>
+      getPacked c fun _ c =>                         -- `_check_packed_conflict(realname)`
       sOpenX real fun ok =>
         if !ok then k (.exc .locked) c else
         sStatR real fun ex =>
@@ -337,6 +339,7 @@ def removeIfEquals (vr : Variant) (name : Ref) (old : Option (Option Val)) (c : 
         sLstatR name fun found =>
           removePacked name c fail fun c =>
             if found then
+              sStatR name fun _ =>                   -- `os.path.isdir(filename)`: a ref file (or nothing) is not one
               sRemoveR name fun ok => if ok then finish c else sRemoveL name fun _ => k (.exc .notfound) c
             else finish c
     match old with
@@ -350,12 +353,11 @@ def removeIfEquals (vr : Variant) (name : Ref) (old : Option (Option Val)) (c : 
 
 /-- `DiskRefsContainer.set_symbolic_ref(name, other)` -/
 def setSymbolicRef (name other : Ref) (c : Cache) (k : Outcome → Cache → Prog) : Prog :=
+  getPacked c fun _ c =>                             -- `_check_packed_conflict(name)`
   sOpenX name fun ok =>
     if !ok then k (.exc .locked) c else
-    follow name c fun fr c =>                        -- only for the reflog entry
-      match fr with
-      | none => sRemoveL name fun _ => k (.exc .symloop) c
-      | some _ => sFsyncL name fun _ => sReplaceL name (.sym other) fun _ => k .unit c
+    follow name c fun _ c =>                         -- only for the reflog entry; a SymrefLoop is tolerated
+      sFsyncL name fun _ => sReplaceL name (.sym other) fun _ => k .unit c
 
 /-- remove the loose files of `rs` one after the other (errors suppressed) -/
 def removeLooseAll : List Ref → Prog → Prog
@@ -400,24 +402,22 @@ def allKeys (env : Env) (c : Cache) (k : List Ref → Cache → Prog) : Prog :=
       getPacked c fun m c =>
         k (env.order.filter fun r => (r == 0 && headExists) || ls.contains r || (pmGet m r).isSome) c
 
-/-- resolve every name in turn (`self[ref]`), collecting the resolvable ones; `none` = SymrefLoop escaped -/
-def resolveAll : List Ref → List (Ref × Sha) → Cache → (Option (List (Ref × Sha)) → Cache → Prog) → Prog
-  | [], acc, c, k => k (some acc.reverse) c
+/-- `pack_refs`: `read_ref` every name in turn (no symref following); symbolic and broken refs stay loose -/
+def readAll : List Ref → List (Ref × Sha) → Cache → (List (Ref × Sha) → Cache → Prog) → Prog
+  | [], acc, c, k => k acc.reverse c
   | r :: rs, acc, c, k =>
-    getItem r c fun res c =>
-      match res with
-      | .ok s => resolveAll rs ((r, s) :: acc) c k
-      | .error .symloop => k none c
-      | .error _ => resolveAll rs acc c k
+    readRef r c fun v c =>
+      match v with
+      | some (.sha s) => readAll rs ((r, s) :: acc) c k
+      | _ => readAll rs acc c k
 
 /-- `DiskRefsContainer.pack_refs(all=True)` -/
 def packRefs (env : Env) (vr : Variant) (c : Cache) (k : Outcome → Cache → Prog) : Prog :=
   allKeys env c fun ks c =>
-    resolveAll (ks.filter (· != 0)) [] c fun res c =>
-      match res with
-      | none => k (.exc .symloop) c
-      | some [] => k .unit c
-      | some new => addPackedRefs vr vr.packRecheck (new.map fun e => (e.1, some e.2)) c k
+    readAll (ks.filter (· != 0)) [] c fun new c =>
+      match new with
+      | [] => k .unit c
+      | new => addPackedRefs vr vr.packRecheck (new.map fun e => (e.1, some e.2)) c k
 
 /-- `as_dict()`: SymrefLoop and KeyError are both skipped -/
 def resolveAllLenient : List Ref → List (Ref × Sha) → Cache → (List (Ref × Sha) → Cache → Prog) → Prog
